@@ -375,8 +375,10 @@ impl DiskCache {
             // item simultaneously.
             if item != cache_item {
                 overlapping_item_paths.insert(self.item_path(key, &item)?);
-                total_bytes_rm += item.len;
             }
+            // The item leaves the in-memory state either way, so its bytes must be subtracted
+            // either way; only the file deletion is conditional.
+            total_bytes_rm += item.len;
         }
         state.num_items -= num_items_rm;
         state.total_bytes -= total_bytes_rm;
